@@ -351,76 +351,81 @@ def update_conservation(chk, rule, mods, name_re, block_re, block_size=1024):
                     if tag == "ctx" and off == tl[0] and size == tl[1]:
                         return _t
                     return None
+                runs_ = []
                 try:
-                    rr = irskel.run(F, args, mem_init)
+                    rr = irskel.run(F, args, mem_init, unknown_dir=1)
+                    runs_.append(rr)
+                    if getattr(rr, "unknown_branches", 0):
+                        runs_.append(irskel.run(F, args, mem_init, unknown_dir=0))
                 except irskel.Unknown as e:
                     chk.broke("%s: IR skeleton not followed for carried = %d, len = %d: %s" % (F.name, P, L, e))
                     break
                 ncases += 1
-                if bad:
-                    continue
-                fill, consumed, hashed = P, 0, 0
-                newtl = None
-                why = None
-                for ev in rr.events:
-                    if ev[0] == "store":
-                        if ev[1] == "ctx" and ev[2] == tl[0]:
-                            newtl = ev[4]
+                for rr in runs_:
+                    if bad:
                         continue
-                    _, cal, av, I = ev
-                    if cal.startswith(("llvm.memcpy", "memcpy", "__memcpy_chk", "llvm.memmove")):
-                        dst, s_, nb = av[0], av[1], av[2]
-                        if isinstance(s_, tuple) and s_[1] == "in":
-                            if not (isinstance(dst, tuple) and dst[1] == "ctx" and pb[0] <= dst[2] < pb[0] + pb[1]) or not isinstance(nb, int):
-                                why = (I, "bytes of the caller's buffer are copied somewhere other than the carried block")
+                    fill, consumed, hashed = P, 0, 0
+                    newtl = None
+                    why = None
+                    for ev in rr.events:
+                        if ev[0] == "store":
+                            if ev[1] == "ctx" and ev[2] == tl[0]:
+                                newtl = ev[4]
+                            continue
+                        _, cal, av, I = ev
+                        if cal.startswith(("llvm.memcpy", "memcpy", "__memcpy_chk", "llvm.memmove")):
+                            dst, s_, nb = av[0], av[1], av[2]
+                            if isinstance(s_, tuple) and s_[1] == "in":
+                                if not (isinstance(dst, tuple) and dst[1] == "ctx" and pb[0] <= dst[2] < pb[0] + pb[1]) or not isinstance(nb, int):
+                                    why = (I, "bytes of the caller's buffer are copied somewhere other than the carried block")
+                                    break
+                                if s_[2] != consumed:
+                                    why = (I, "the copy into the carried block starts at byte %d of the caller's buffer, but %d byte(s) have been consumed so far" % (s_[2], consumed))
+                                    break
+                                if dst[2] - pb[0] != fill:
+                                    why = (I, "the copy lands at offset %d of the carried block, which holds %d byte(s)" % (dst[2] - pb[0], fill))
+                                    break
+                                if fill + nb > BS or consumed + nb > L:
+                                    why = (I, "the copy of %d byte(s) overruns the carried block (%d held) or the caller's buffer (%d of %d consumed)" % (nb, fill, consumed, L))
+                                    break
+                                fill += nb
+                                consumed += nb
+                        elif re.match(block_re, cal):
+                            p0 = av[0]
+                            nblk = [x for x in av if isinstance(x, int)]
+                            nblk = nblk[-1] if nblk else None
+                            if nblk is None or not isinstance(p0, tuple):
+                                why = (I, "block function called with arguments the skeleton does not determine")
                                 break
-                            if s_[2] != consumed:
-                                why = (I, "the copy into the carried block starts at byte %d of the caller's buffer, but %d byte(s) have been consumed so far" % (s_[2], consumed))
+                            if p0[1] == "ctx" and p0[2] == pb[0]:
+                                if fill != BS or nblk != 1:
+                                    why = (I, "the carried block is hashed while it holds %d of %d bytes (%d block(s) requested)" % (fill, BS, nblk))
+                                    break
+                                hashed += 1
+                                fill = 0
+                            elif p0[1] == "in":
+                                if p0[2] != consumed or fill != 0:
+                                    why = (I, "blocks are hashed from byte %d of the caller's buffer while %d byte(s) have been consumed and %d are still carried: the stream order is broken" % (p0[2], consumed, fill))
+                                    break
+                                if consumed + nblk * BS > L:
+                                    why = (I, "%d block(s) are hashed from byte %d of a %d-byte buffer" % (nblk, consumed, L))
+                                    break
+                                consumed += nblk * BS
+                                hashed += nblk
+                            else:
+                                why = (I, "block function reads from neither the carried block nor the caller's buffer")
                                 break
-                            if dst[2] - pb[0] != fill:
-                                why = (I, "the copy lands at offset %d of the carried block, which holds %d byte(s)" % (dst[2] - pb[0], fill))
-                                break
-                            if fill + nb > BS or consumed + nb > L:
-                                why = (I, "the copy of %d byte(s) overruns the carried block (%d held) or the caller's buffer (%d of %d consumed)" % (nb, fill, consumed, L))
-                                break
-                            fill += nb
-                            consumed += nb
-                    elif re.match(block_re, cal):
-                        p0 = av[0]
-                        nblk = [x for x in av if isinstance(x, int)]
-                        nblk = nblk[-1] if nblk else None
-                        if nblk is None or not isinstance(p0, tuple):
-                            why = (I, "block function called with arguments the skeleton does not determine")
-                            break
-                        if p0[1] == "ctx" and p0[2] == pb[0]:
-                            if fill != BS or nblk != 1:
-                                why = (I, "the carried block is hashed while it holds %d of %d bytes (%d block(s) requested)" % (fill, BS, nblk))
-                                break
-                            hashed += 1
-                            fill = 0
-                        elif p0[1] == "in":
-                            if p0[2] != consumed or fill != 0:
-                                why = (I, "blocks are hashed from byte %d of the caller's buffer while %d byte(s) have been consumed and %d are still carried: the stream order is broken" % (p0[2], consumed, fill))
-                                break
-                            if consumed + nblk * BS > L:
-                                why = (I, "%d block(s) are hashed from byte %d of a %d-byte buffer" % (nblk, consumed, L))
-                                break
-                            consumed += nblk * BS
-                            hashed += nblk
-                        else:
-                            why = (I, "block function reads from neither the carried block nor the caller's buffer")
-                            break
-                if why is None:
-                    if consumed != L:
-                        why = (rr.events[-1][-1] if rr.events else F.first(), "%d of the %d byte(s) of the caller's buffer are consumed" % (consumed, L))
-                    elif fill == BS:
-                        why = (rr.events[-1][-1] if rr.events else F.first(), "the call returns with a full carried block that was not hashed; the next call derives %d carried byte(s) from total_length and overwrites it" % ((P + L) % BS))
-                    elif hashed != (P + L) // BS or fill != (P + L) % BS:
-                        why = (rr.events[-1][-1] if rr.events else F.first(), "%d block(s) hashed and %d byte(s) carried at return; %d and %d are due" % (hashed, fill, (P + L) // BS, (P + L) % BS))
-                    elif newtl != T0 + L:
-                        why = (F.first(), "total_length is %s at return, %d is due" % (newtl, T0 + L))
-                if why:
-                    bad = (P, L, why)
+                    if why is None:
+                        if consumed != L:
+                            why = (rr.events[-1][-1] if rr.events else F.first(), "%d of the %d byte(s) of the caller's buffer are consumed" % (consumed, L))
+                        elif fill == BS:
+                            why = (rr.events[-1][-1] if rr.events else F.first(), "the call returns with a full carried block that was not hashed; the next call derives %d carried byte(s) from total_length and overwrites it" % ((P + L) % BS))
+                        elif hashed != (P + L) // BS or fill != (P + L) % BS:
+                            why = (rr.events[-1][-1] if rr.events else F.first(), "%d block(s) hashed and %d byte(s) carried at return; %d and %d are due" % (hashed, fill, (P + L) // BS, (P + L) % BS))
+                        elif newtl != T0 + L:
+                            why = (F.first(), "total_length is %s at return, %d is due" % (newtl, T0 + L))
+                    if why:
+                        bad = (P, L, why)
             chk.obligation(rule, bad is None, key=(src, F.name, "conservation"), sample={"unit": src, "function": F.name, "cases": len(grid)})
             if bad and "does not determine" in bad[2][1]:
                 chk.broke("%s: carried = %d, len = %d: %s" % (F.name, bad[0], bad[1], bad[2][1]))
@@ -461,7 +466,10 @@ def tail_rule(chk, rule, mods, name_re, block_re, block_size=1024, lf=8):
                 args[pn] = ("p", "buf", 0)
                 args[tn] = T
                 try:
-                    rr = irskel.run(F, args, None)
+                    try:
+                        rr = irskel.run(F, args, None)
+                    except irskel.Unknown:
+                        rr = irskel.run(F, args, None, unknown_dir=1)      # e.g. a branch on a pointer's alignment
                 except irskel.Unknown as e:
                     chk.broke("%s: IR skeleton not followed for a residue of %d: %s" % (F.name, r, e))
                     break
